@@ -95,6 +95,9 @@ func init() {
 				t.S("HANG")
 				return t.String()
 			}
+			if isStart && e != nil && portForeign(port) {
+				return "foreignport" // another process holds the port: not the receiver's doing, the run says nothing
+			}
 			name := "T"
 			if isStart {
 				name = "S"
@@ -151,6 +154,9 @@ func init() {
 		}
 		// the port can be bound again
 		pc, err := net.ListenPacket("udp", fmt.Sprintf("127.0.0.1:%d", port))
+		if err != nil && portForeign(port) {
+			return "foreignport"
+		}
 		if err != nil {
 			t.S("portBUSY")
 		} else {
@@ -186,6 +192,9 @@ func init() {
 		}()
 		port := freePort()
 		if err := recv.Start("127.0.0.1", port, decode); err != nil {
+			if portForeign(port) {
+				return "foreignport"
+			}
 			return "starterr"
 		}
 		nconn := 1
@@ -246,6 +255,10 @@ func init() {
 		again := make(chan string, 1)
 		go func() {
 			if err := recv.Start("127.0.0.1", port, decode); err != nil {
+				if portForeign(port) {
+					again <- "foreignport"
+					return
+				}
 				again <- "restartERR"
 				return
 			}
